@@ -13,7 +13,7 @@ func init() {
 	probeNames["C08"] = []string{"fault_in_commit", "fault_in_data_write", "fault_in_header_write", "fault_in_first_sync", "fault_in_final_sync", "fault_outside_commit", "fault_during_open", "commit_failed", "commit_ok", "liveness_checked", "liveness_second_attempt", "durability_checked", "final_state_is_later_attempt", "short_write", "burst_spans_transactions", "reopen_with_maxsize_update", "shrink_release_under_fault", "grow_prealloc_under_fault", "stale_flush_write_failed_late", "reopen_right_after_failed_commit", "abort_state_compared", "reopen_alloc_state_compared"}
 	register(&PropDef{
 		ID: "C08", Level: "fault_enumeration", QuickSec: 55, ThoroSec: 1200,
-		Rule: "each run = one seeded txops history (<=10 transactions, incl. reopen) with a fault plan aimed at the I/O calls a fault-free dry run of the same seed performs: kind in {write error before effect, short write then error, sync error, truncate error, size error, mmap error, read error at open} x call index x burst in {1,2,3,until end of transaction}; a fault-free configuration of every seed runs first with the strict oracle. Reopens may change the limit (grow, shrink); two targeted scenarios aim one fault at the open-time steps of a shrinking open (release transaction) and of a growing open with Prealloc (header transaction, truncate, remap); a sixth of the runs use SyncNone (no durability oracle there); a third of the failed commits are followed by close+reopen at once. Oracles: no panic, no hang (scheduler deadlock detection), after every transaction a fresh read transaction sees exactly the last successfully committed model state, a commit that reported success is durable (durable-only image reopens to it), a commit during which one of its writes/syncs failed does not report success, a commit whose failure was not its final sync has not written a complete new header, once faults stopped a write transaction commits within 2 attempts (the first may fail only if a write or sync failed outside a commit since the last commit attempt, or a write queued by a Flush of a rolled back transaction failed and no commit has succeeded since), and after clean close+reopen the state is the last committed one or the complete state of a later attempt whose header write was issued. Non-trivial = at least one fault actually fired inside a transaction or an open; distinct = op list + fault plan + config + schedule hash.",
+		Rule: "each run = one seeded txops history (<=10 transactions, incl. reopen) with a fault plan aimed at the I/O calls a fault-free dry run of the same seed performs: kind in {write error before effect, short write then error, sync error, truncate error, size error, mmap error, read error at open} x call index x burst in {1,2,3,until end of transaction}; a fault-free configuration of every seed runs first with the strict oracle. Reopens may change the limit (grow, shrink); two targeted scenarios aim one fault at the open-time steps of a shrinking open (release transaction) and of a growing open with Prealloc (header transaction, truncate, remap); a sixth of the runs use SyncNone (no durability oracle there); a third of the failed commits are followed by close+reopen at once. Oracles: no panic, no hang (scheduler deadlock detection), after every transaction a fresh read transaction sees exactly the last successfully committed model state, a commit that reported success is durable (durable-only image reopens to it), a commit during which one of its writes/syncs failed does not report success, a commit whose failure was not its final sync has not written a complete new header, once faults stopped a write transaction commits within 2 attempts (the first may fail only if a write or sync failed outside a commit since the last commit attempt, or a write queued by a Flush of a rolled back transaction failed and no commit has succeeded since), after a clean close and plain reopen the allocation state read from the file equals the one the closed File had in memory, a transaction that ended without a successful commit leaves the allocation state as it was at its begin, and after clean close+reopen the state is the last committed one or the complete state of a later attempt whose header write was issued. Non-trivial = at least one fault actually fired inside a transaction or an open; distinct = op list + fault plan + config + schedule hash.",
 		Real: defaultReal, Stub: defaultStub, Assume: defaultAssume,
 		FaultKinds: []string{"write_err", "write_short", "sync_err", "truncate_err", "size_err", "mmap_err", "read_err", "unlock_err"},
 		Body: c08Body,
